@@ -52,6 +52,13 @@ type Sim struct {
 	simNanos  time.Duration
 	logHash   uint64
 	nEvents   int
+	// quiet: under the race detector the harness must not create
+	// happens-before edges between actors that the code under test does not
+	// have; only operation boundaries are recorded and names are looked up
+	// without a shared mutex
+	quiet    bool
+	actorsQ  sync.Map
+	shieldV2 bool
 }
 
 func NewSim(runKey uint64) *Sim {
@@ -65,6 +72,7 @@ func NewSim(runKey uint64) *Sim {
 // Register names the calling goroutine as an actor.
 func (s *Sim) Register(name string) {
 	id := runtime.VerifGoid()
+	s.actorsQ.Store(id, name)
 	s.mu.Lock()
 	s.actors[id] = name
 	s.mu.Unlock()
@@ -102,6 +110,17 @@ func (s *Sim) ActorName() string {
 	if id == s.schedGoid {
 		return ""
 	}
+	if s.quiet {
+		if v, ok := s.actorsQ.Load(id); ok {
+			return v.(string)
+		}
+		name := roleFromStack()
+		if name == "analysis" {
+			name = ""
+		}
+		s.actorsQ.Store(id, name)
+		return name
+	}
 	s.mu.Lock()
 	name, ok := s.actors[id]
 	s.mu.Unlock()
@@ -138,6 +157,9 @@ func (s *Sim) Gate(label, detail string) any {
 
 // Rec appends an event to the current window.
 func (s *Sim) Rec(kind, detail string, data any) {
+	if s.quiet && kind != "invoke" && kind != "return" && kind != "ack" && kind != "reader-open" && kind != "dir" {
+		return
+	}
 	name := s.ActorName()
 	if name == "" {
 		name = "~sched"
